@@ -82,7 +82,16 @@ PROPS["C07"] = dict(level="proof", bounded=[dict(name="c07_runtime", script="har
     lean=["periodic_gain_bracket", "periodic_gain_within"], assumptions=SOLVER_ASSUME)
 PROPS["C17"] = dict(level="proof", bounded=[dict(name="c17_runtime", script="harness_solvers.py", args=["--prop", "c17"], wall_s=300)], units=[U(["contracts.matrices"], PB, timeout_ms=20000)], lean=["matrix_backup_eq"], assumptions=SOLVER_ASSUME)
 PROPS["C15"] = dict(level="proof", bounded=[dict(name="c15_runtime", script="harness_problems.py", args=["--prop", "c15"], wall_s=300)], units=[U(["contracts.problems"], f"{t}.transition", timeout_ms=30000, wall_s=1200) for t in (DM, HX, MJ, FO)], assumptions=[ARITH, ENGINE])
-PROPS["C13"] = dict(level="proof", bounded=[dict(name="c13_runtime", script="harness_problems.py", args=["--prop", "c13"], wall_s=300)], units=[U(["contracts.probabilities"], f"{DM}.{m}", timeout_ms=20000) for m in ("_convert_gamma_parameters", "_calculate_demand_probabilities")], lean=["telescope"], assumptions=[ARITH, ENGINE])
+PRB = ["contracts.probabilities"]
+C13_UNITS = [U(PRB, f"{DM}.{m}", timeout_ms=20000) for m in ("_convert_gamma_parameters", "_calculate_demand_probabilities", "random_event_probability")] \
+          + [U(PRB, f"{FO}.random_event_probability")] \
+          + [U(PRB, f"{MJ}.{m}", timeout_ms=20000) for m in ("_setup_before_space_construction", "_calculate_demand_probabilities", "_get_multinomial_logits", "_calculate_received_order_probabilities", "random_event_probability")]
+DIST_ASSUME = ["distribution functions are uninterpreted mathematical functions with assumed contracts: a cdf is non-decreasing with values in [0,1] (Gamma: cdf(0)=0); a pmf is >= 0 and its partial sums are <= 1; exp(log_prob(x)) is the pmf; the multinomial pmf sums to one over the compositions of the order - the numerical accuracy of numpyro / scipy / jax.scipy is trusted",
+               "Hendrix' four-case compound distribution (tables filled by Python loops over scipy calls) and Mirjalili's event-space enumeration are covered only by the bounded harness (complete enumeration on a stated parameter grid)"]
+PROPS["C13"] = dict(level="proof", bounded=[dict(name="c13_runtime", script="harness_problems.py", args=["--prop", "c13"], wall_s=300)], units=C13_UNITS, lean=["telescope"], assumptions=[ARITH, ENGINE] + DIST_ASSUME)
+PROPS["C16"] = dict(level="other", bounded=[dict(name="c16_runtime", script="harness_problems.py", args=["--prop", "c16"], wall_s=400)],
+    units=C13_UNITS + [U(PRB, f"{HX}.initial_value"), U(PRB, "mdpax.core.problem.Problem.initial_value")], lean=["telescope"], assumptions=[ARITH, ENGINE] + DIST_ASSUME,
+    explanation="plumbing proved (which distribution, which parameters, which bins, which ordering, censoring, product form, initial values) with the distribution functions uninterpreted; numerics of the special functions trusted; Hendrix' joint distribution only bounded (brute-force enumeration up to the documented tail)")
 
 CFGS = ["mdpax.solvers.value_iteration.ValueIterationConfig", "mdpax.solvers.policy_iteration.PolicyIterationConfig",
         "mdpax.solvers.relative_value_iteration.RelativeValueIterationConfig", "mdpax.solvers.periodic_value_iteration.PeriodicValueIterationConfig",
